@@ -318,7 +318,15 @@ def pool_rules(R, lib, zs, full=False):
     first = None
     nbad = 0
     loc_c = cmod.funcs[ins].loc
-    pf = zs.fn('_add_transition_sorted')
+    # the Python helper that puts a transition into a list kept sorted by time: by its name, else the one module-level function whose
+    # name says "transition" and "sorted" (it is private to the module and may be renamed; it may return the list instead of changing it)
+    pname = '_add_transition_sorted'
+    if pname not in zs.funcs:
+        alt = [q_ for q_, f_ in zs.funcs.items() if '.' not in q_ and 'transition' in q_ and 'sorted' in q_ and len(f_.params) == 2]
+        if len(alt) != 1:
+            raise AnalysisError('anchor vanished: no function _add_transition_sorted in tools/zonedb/zone_specifier.py (candidates: %s)' % alt)
+        pname = alt[0]
+    pf = zs.fn(pname)
     for front in (0, 1, 2):
         for prior_slot in (False, True):
             for length in range(0, 5):
@@ -341,8 +349,8 @@ def pool_rules(R, lib, zs, full=False):
                         lst = [AObj({'transitionTime': t}, oid='c%d' % j, cls='Transition') for j, t in enumerate(times)]
                         new = AObj({'transitionTime': agent}, oid='new', cls='Transition')
                         try:
-                            AEval(module=zs, intrinsics=pintr).call_function('_add_transition_sorted', [lst, new])
-                            got_p = [o.oid for o in lst]
+                            ret_ = AEval(module=zs, intrinsics=pintr).call_function(pname, [lst, new])
+                            got_p = [o.oid for o in (ret_ if isinstance(ret_, list) else lst)]
                         except Raised as r_:
                             got_p = ['raise:' + r_.what[:40]]
                         if got_c != got_p or not rest_ok:
